@@ -1,5 +1,6 @@
 """C16 — resampling and smoothing keep the neuron's shape (spec/Resample.tla)."""
 import numpy as np
+from harness import lib
 
 RULE = ("trees = every parents-first topology up to the bound x every assignment of axis-parallel offsets (lengths 0-3; zero-length segments inside "
         "branches; no two of root / furcations / tips coincide) with varying radii and every root type; spacings {1/2, 3/4, 1, 3/2, 2, 10} with and "
@@ -50,13 +51,13 @@ def execute(c):
     d = c["sp"][0] / c["sp"][1]
     adj = bool(c["adjust"])
     o = {}
-    o["iso"] = tree_result(lambda: IsometricResampler(d, adjust_last_gap=adj)(t))
+    o["iso"] = tree_result(lambda: lib.reused(IsometricResampler(d, adjust_last_gap=adj), c)(t))
     o["same"] = tree_result(lambda: BranchTreeAssembler()(BranchTree.from_tree(t)))
     brs = t.get_branches()
     b1 = min(brs, key=lambda b: int(b.origin_id()[-1]))
     o["blin"] = pts_result(lambda: BranchLinearResampler(c["n"])(b1))
     o["biso"] = pts_result(lambda: BranchIsometricResampler(d, adjust_last_gap=adj)(b1))
-    ts = tree_result(lambda: TreeSmoother(c["win"])(t))
+    ts = tree_result(lambda: lib.reused(TreeSmoother(c["win"]), c)(t))
     o["tsm"] = ts
     o["bsm"] = pts_result(lambda: BranchConvSmoother(c["win"])(b1))
     return o
